@@ -343,6 +343,13 @@ def _absent_in_listing(repo: Repo, run: Run, interp) -> None:
         if x.op == "ite" and x.a[0] == T("cmp", ("not in", eid, table)):
             found = T("ite", (cond, x.a[2], x.a[1]))
             break
+        # name = table.get(id) ... `if name is None` / `is not None`: the names of the table are strings, so "no name" is
+        # "id not in the table"
+        gets = [T("call", (T("attr", (table, "get")), (eid,) + d, ())) for d in ((), (const(None),))]
+        if x.op == "ite" and x.a[0].op == "cmp" and x.a[0].a[0] in ("is", "is not") and x.a[0].a[2] == const(None) \
+                and x.a[0].a[1] in gets:
+            found = T("ite", (cond, x.a[2], x.a[1])) if x.a[0].a[0] == "is" else T("ite", (cond, x.a[1], x.a[2]))
+            break
     # on the branch where the id is in the table, table.get(id, <anything>) is table[id]
     ok = found is not None and found.a[2] == hexid and any(
         x == T("sub", (table, eid)) or (x.op == "call" and x.a[0] == T("attr", (table, "get")) and x.a[1][:1] == (eid,))
@@ -439,7 +446,11 @@ def domain_by_name(repo: Repo, run: Run) -> None:
     name at another id the record must still be paired apart from the ordinary calls."""
     from . import c04
     probe = Run("C04", run.tier, run.repo_root)
-    c04.check(repo, probe)
+    try:
+        c04.check(repo, probe)
+    except AnalysisError as ex:
+        run.floor_failures.append(f"C19/R0: the domain selection taken from C04 is not decided: {str(ex)[:200]}")
+        return
     m = 0
     for o in probe.obligations:
         if o["rule"] == "K6" and o["construct"] == "domain selection":
